@@ -23,7 +23,8 @@
 (*  Mode "names":   class blocks with adversarially close obfuscated names *)
 (*                  (prefixes, '$' / '.' variants, non-ASCII, duplicates). *)
 (*  Mode "blocks":  2..3 class blocks (names may repeat) of <= 2 methods   *)
-(*                  each: section offsets, per-class state, block order.   *)
+(*                  each (<= 1 in a third block): section offsets,         *)
+(*                  per-class state, block order.                          *)
 (***************************************************************************)
 EXTENDS Integers, Sequences, SequencesExt, FiniteSets, TLC, Json, MappingGrammar, Retrace
 
@@ -173,7 +174,9 @@ Next ==
      /\ \E r \in RecAlpha : lines' = Append(lines, r)
      /\ UNCHANGED phase
   \/ /\ phase \in {"b0", "b1", "b2"} /\ (phase = "b2" => MaxRecs >= 3)
-     /\ \E c \in BlkClasses, ms \in {<<>>} \cup {<<x>> : x \in BlkMethods} \cup {<<x, y>> : x, y \in BlkMethods} :
+     \* (a third block has at most one method: 155k files instead of 804k)
+     /\ \E c \in BlkClasses, ms \in {<<>>} \cup {<<x>> : x \in BlkMethods}
+                                     \cup (IF phase = "b2" THEN {} ELSE {<<x, y>> : x, y \in BlkMethods}) :
           lines' = lines \o <<c>> \o ms
      /\ phase' = NextBlockPhase(phase)
   \/ /\ phase = "files" /\ Len(lines) < MaxRecs + 1
